@@ -72,6 +72,9 @@ def run(ctx):
                 restores.append(n)
             if isinstance(n.ast, ast.Delete) and any(isinstance(t, ast.Attribute) and t.attr == ATTR for t in n.ast.targets):
                 restores.append(n)
+            if any(isinstance(c.func, ast.Attribute) and c.func.attr == "pop" and c.args and isinstance(c.args[0], ast.Constant) and c.args[0].value == ATTR
+                   and ("__dict__" in ast.unparse(c.func.value) or "vars(" in ast.unparse(c.func.value)) for c in calls_in(n.ast)):
+                restores.append(n)
         # nothing between the overwrite and the guarded yield
         nxt = [m for m, lab in g.succ[O] if lab == "next"]
         ctx.decide(nxt == [Y], "C19.ac", ac.ident, loc_of(ac, O.ast), "the guarded yield immediately follows the overwrite",
@@ -242,6 +245,7 @@ MUTANTS = [
       more=[("return self.pool\n\n    def __exit__", "self.original_log_prior = self.aspire_instance.log_prior\n        return self.pool\n\n    def __exit__")]),
 ]
 NEUTRALS = [
+    M("delete through the instance dict", _A, "if hasattr(self, \"_checkpoint_defaults\"):\n                    delattr(self, \"_checkpoint_defaults\")", "self.__dict__.pop(\"_checkpoint_defaults\", None)"),
     M("finally with inverted test", _A, "if prev is None:\n                if hasattr(self, \"_checkpoint_defaults\"):\n                    delattr(self, \"_checkpoint_defaults\")\n            else:\n                self._checkpoint_defaults = prev",
       "if prev is not None:\n                self._checkpoint_defaults = prev\n            else:\n                if hasattr(self, \"_checkpoint_defaults\"):\n                    delattr(self, \"_checkpoint_defaults\")"),
 ]
